@@ -4,7 +4,7 @@ from __future__ import annotations
 import ast
 import struct
 
-from engine.cfg import CFG, normalise_compare, atoms
+from engine.cfg import CFG, normalise_compare, atoms, A
 from engine.model import src, stmt_key, dotted, AnalysisError
 from engine.project import feasible_paths
 from engine import pat
@@ -220,7 +220,7 @@ def run(model, rep, tier):
     sp = model.func("dns.message.Message._parse_special_rr_header")
     cs = CFG(sp.node, implicit_exc=False)
     tt = [t for t in cs.nodes if t.kind == "test" and normalise_compare(t.ast.test)[0] == "or" and set(atoms(normalise_compare(t.ast.test))) ==
-          {("section", "!=", "MessageSection.ADDITIONAL"), ("rdclass", "!=", "dns.rdatatype.ANY"), ("position", "!=", "count - 1")}]
+          {A("section", "!=", "MessageSection.ADDITIONAL"), A("rdclass", "!=", "dns.rdatatype.ANY"), A("position", "!=", "count - 1")}]
     rb = [n for n in cs.nodes if isinstance(n.ast, ast.Raise) and src(n.ast) == "raise BadTSIG"]
     ty = [t for t in cs.nodes if t.kind == "test" and atoms(normalise_compare(t.ast.test)) == [("rdtype", "==", "dns.rdatatype.TSIG")]]
     okk = len(tt) == 1 and len(rb) == 1 and cs.edge_dominated(rb[0].id, {(tt[0].id, "t")}) and len(ty) == 1 and cs.edge_dominated(tt[0].id, {(ty[0].id, "t")})
